@@ -41,8 +41,8 @@ def roles(p):
         raise AnchorMissing("expected one looping function calling the move helper in Cone(FixedWindowRoller::roll), found %s" % [f.path for f in loops])
     r["rotate"] = loops[0]
     rot = r["rotate"]
-    nxb = [c.block for c in rot.calls(NEXT) if rot.in_loop(c.block)]
-    comp = [c for c in rot.calls() if c.callee in p.fns and not rot.in_loop(c.block) and c.callee != EXPAND and nxb and rot.dominates(nxb[0], c.block)]
+    head = loop_head(rot, mv[0].path)
+    comp = [c for c in rot.calls() if c.callee in p.fns and not rot.in_loop(c.block) and c.callee != EXPAND and head is not None and rot.dominates(head, c.block)]
     if len(comp) != 1:
         raise AnchorMissing("expected one final move/compress call after the loop in %s, found %s" % (rot.path, [c.callee for c in comp]))
     r["compress_site"] = comp[0]
@@ -67,6 +67,180 @@ def roles(p):
     r["cone"] = cone
     p._fw = r
     return r
+
+
+def loop_body(rot, move_path):
+    """blocks of the natural loop around the in-loop call of the move helper"""
+    mvs = [c for c in rot.calls(move_path) if rot.in_loop(c.block)]
+    if not mvs:
+        return None, set()
+    b = mvs[0].block
+    body = {x for x in rot.reach(b, include_src=True) if b in rot.reach(x, include_src=True)}
+    return mvs[0], body
+
+
+def loop_head(rot, move_path):
+    """the block deciding whether another shift iteration runs: the in-loop Iterator::next call of a `for`,
+    or the comparison switch of a `while` whose one edge leaves the loop"""
+    mv, body = loop_body(rot, move_path)
+    if mv is None:
+        return None
+    nx = [c.block for c in rot.calls(NEXT) if c.block in body]
+    if nx:
+        return nx[0]
+    heads = []
+    for b in sorted(body):
+        t = rot.term(b)
+        if t["k"] != "switch":
+            continue
+        si = SwitchInfo(rot, b)
+        if not si.is_bool or cmp_nf(si.discr, True) is None:
+            continue
+        outs = [x for x in rot.succ[b] if x not in body]
+        if outs and rot.dominates(b, mv.block):
+            heads.append(b)
+    return heads[0] if len(heads) == 1 else None
+
+
+def _chase(f, l):
+    """look through single-definition whole-local copies"""
+    seen = set()
+    while l not in seen:
+        seen.add(l)
+        ds = f.defs(l)
+        if len(ds) == 1 and not ds[0][0] and ds[0][3] == "rv" and ds[0][4]["k"] == "use" and not (1 <= l <= f.nargs):
+            pl = ds[0][4]["a"].get("copy") or ds[0][4]["a"].get("move")
+            if pl and not pl["p"]:
+                l = pl["l"]
+                continue
+        break
+    return l
+
+
+def _loopvar_pred(init):
+    """predicate recognising the loop-carried variable in recovered expressions: a join of its initial value with
+    values derived from itself by a constant step (the cut point of the cycle depends on where recovery started)"""
+    init = deep_strip(init)
+
+    def pred(e):
+        if e[0] != "phi":
+            return False
+        alts = [deep_strip(a) for a in e[1]]
+        if init not in alts:
+            return False
+        for a in alts:
+            if a == init:
+                continue
+            cyc = [y for y in walk(a) if y[0] == "cycle"]
+            if not cyc:
+                return False
+            lf = linear(a, {"v": cyc[0]})
+            if lf not in ({"v": 1}, {"v": 1, 1: -1}):
+                return False
+        return True
+    return pred
+
+
+def shift_loop(p):
+    """Model of the shift loop, from either spelling:
+         for i in (lo..hi).rev() { move(pattern(i), pattern(i+1)) }
+         let mut v = hi; while v > lo { move(pattern(v-1), pattern(v)); v -= 1 }
+       -> dict(kind, head, var (expression of the loop variable in index expressions), first, last (linear forms over
+          base/count of the variable's first and last value), desc, exit (callable: conditions entry -> bool), detail)"""
+    ro = roles(p)
+    rot = ro["rotate"]
+    pr = rotate_params(p)
+    vars_ = {"base": ("param", pr["base"]), "count": ("param", pr["count"])}
+    mv, body = loop_body(rot, ro["move_file"].path)
+    if mv is None:
+        raise ShapeUnrecognised("no move_file call inside a loop of %s" % rot.path)
+    head = loop_head(rot, ro["move_file"].path)
+    if head is None:
+        raise ShapeUnrecognised("cannot identify the shift loop's continuation test in %s" % rot.path)
+    nx = [c for c in rot.calls(NEXT) if c.block == head]
+    m = {"head": head, "mv": mv, "body": body}
+    if nx:
+        it = nx[0].arg(0)
+        revs = [x for x in walk(it) if x[0] == "call" and x[1] == "core::iter::traits::iterator::Iterator::rev"]
+        rngs = [x for x in walk(it) if x[0] == "agg" and x[1] in ("core::ops::range::Range", "core::ops::range::RangeInclusive")]
+        ity = nx[0].t.get("arg_tys", [""])[0]
+        item = None
+        for x in walk(mv.arg(0)):
+            if x[0] == "as" and x[2] == "Some" and strip(x[1])[0] == "call" and strip(x[1])[1] == NEXT:
+                item = ("field", x, "0")
+        m.update(kind="range", site=nx[0], iter_expr=it, iter_ty=ity, var=deep_strip(item) if item else None,
+                 desc=len(revs) == 1 and len(rngs) == 1 and any(y is rngs[0] or y == rngs[0] for y in walk(revs[0])) and "Rev<" in ity and "Range<u32>" in ity)
+        if len(rngs) == 1:
+            fd = dict(rngs[0][3])
+            ls, le = linear(fd.get("start"), vars_), linear(fd.get("end"), vars_)
+            incl = rngs[0][1].endswith("RangeInclusive")
+            if le is not None and not incl:
+                le = dict(le)
+                le[1] = le.get(1, 0) - 1
+                le = {k: v for k, v in le.items() if v != 0}
+            # a reversed range starts at its (inclusive) end and stops at its start
+            m.update(first=le, last=ls, range_start=fd.get("start"), range_end=fd.get("end"), inclusive=incl)
+        else:
+            m.update(first=None, last=None)
+
+        def exit_(sb, si, al):
+            d = strip(si.discr)
+            return d[0] == "discr" and strip(d[1])[0] == "call" and strip(d[1])[1] == NEXT and {si.label(v) for v, _ in al} == {"None"}
+        m["exit"] = exit_
+        m["detail"] = "for over %s" % show(it, 5)
+        return m
+    # countdown
+    si = SwitchInfo(rot, head)
+    stay = [x for x in rot.succ[head] if x in body]
+    if len(stay) != 1:
+        raise ShapeUnrecognised("shift loop header bb%d has %d edges into the loop" % (head, len(stay)))
+    truth = None
+    for v, t in si.edges:
+        if t == stay[0]:
+            truth = si.label(v)
+    nf = cmp_nf(si.discr, bool(truth)) if truth in (True, False) else None
+    if nf is None or nf[0] not in ("Lt", "Le"):
+        raise ShapeUnrecognised("shift loop continuation test is not an ordering comparison: %s" % show(si.discr, 4))
+    op, lo_e, var_e = nf[0], deep_strip(nf[1]), deep_strip(nf[2])
+    if var_e[0] != "phi":
+        raise ShapeUnrecognised("shift loop continuation test `%s %s %s`: the right-hand side is not a loop-carried variable (only the descending form `bound < v` is recognised)" % (
+            show(lo_e, 3), op, show(var_e, 3)))
+    inits = [a for a in var_e[1] if not any(y[0] == "cycle" for y in walk(a))]
+    steps = [a for a in var_e[1] if any(y[0] == "cycle" for y in walk(a))]
+    if len(inits) != 1 or not steps:
+        raise ShapeUnrecognised("loop variable %s: expected one initial value and a step" % show(var_e, 4))
+    cyc = [y for a in steps for y in walk(a) if y[0] == "cycle"][0]
+    step_ok = all(linear(a, {"v": cyc}) == {"v": 1, 1: -1} for a in steps)
+    # the variable is only updated after the move of the iteration
+    dl = None
+    pl = si.t["discr"].get("copy") or si.t["discr"].get("move")
+    upd_after = False
+    if pl is not None:
+        for (dp, b, i, kind, payload) in rot.defs(pl["l"]):
+            if kind == "rv" and payload["k"] == "bin":
+                for o in (payload["a"], payload["b"]):
+                    q_ = o.get("copy") or o.get("move")
+                    if q_ and not q_["p"]:
+                        q_ = {"l": _chase(rot, q_["l"]), "p": []}
+                        ds = [d for d in rot.defs(q_["l"]) if not d[0]]
+                        inl = [d for d in ds if d[1] in body]
+                        if len(ds) >= 2 and inl and len(inl) < len(ds):
+                            dl = q_["l"]
+                            upd_after = all(rot.dominates(mv.block, d[1]) for d in inl)
+    first = linear(inits[0], vars_)
+    lo = linear(lo_e, vars_)
+    last = None
+    if lo is not None:
+        last = dict(lo)
+        if op == "Lt":
+            last[1] = last.get(1, 0) + 1
+        last = {k: v for k, v in last.items() if v != 0}
+
+    def exit_(sb, si2, al):
+        return sb == head and {si2.label(v) for v, _ in al} == {not truth}
+    m.update(kind="countdown", site=None, var=_loopvar_pred(inits[0]), desc=step_ok and upd_after and dl is not None, first=first, last=last, exit=exit_,
+             detail="while %s %s v, v from %s, step %s, updated after the move: %s" % (show(lo_e, 3), op, show(inits[0], 4), "-1" if step_ok else "?", upd_after))
+    return m
 
 
 def rotate_params(p):
@@ -105,7 +279,7 @@ def linear(e, vars_):
     checked/saturating/unchecked additions are the same node; None if not linear."""
     e = deep_strip(e)
     for name, v in vars_.items():
-        if e == v:
+        if (v(e) if callable(v) else e == v):
             return {name: 1}
     c = tables.fold_int(e)
     if c is not None:
@@ -176,14 +350,14 @@ def run_cfg(ctx, p, cfg):
             ci = index_of(c.arg(0))
             r.require(ci is not None and dsti is not None and ci[0] == dsti[0] and any(x[0] == "call" and x[1] == "std::path::Path::parent" for x in walk(c.arg(0))), "creates-parent-of-destination", fn=rot, site=c.at,
                       detail="create_dir_all(parent(pattern(i+1)))")
-            nxb = {x.block for x in rot.calls(NEXT)}
+            nxb = {loop_head(rot, ro["move_file"].path)}
             r.require(bool(mv) and mv[0].block in rot.reach(c.block, avoid=nxb) and c.block not in rot.reach(mv[0].block, avoid=nxb), "before-the-move", fn=rot, detail="directory creation precedes the move of that iteration")
             # gate: unconditional (besides parent() being Some), or `parent(pattern(base)) != parent(expanded pattern)`
             gates = []
             for sb, si, al in rot.conditions(c.block):
                 d = strip(si.discr)
-                if d[0] == "discr":
-                    continue  # iterator / Option<parent> / Try matches
+                if d[0] == "discr" or sb in nxb:
+                    continue  # iterator / Option<parent> / Try matches; the loop's own continuation test
                 gates.append((si, {si.label(v) for v, _ in al}))
             okg = True
             why = "unconditional"
@@ -449,29 +623,30 @@ def rule_shift_order(ctx, p, cfg, rid="R1"):
         pr = rotate_params(p)
         mv_sites = [c for c in rot.calls(ro["move_file"].path) if rot.in_loop(c.block)]
         r.require(len(mv_sites) == 1, "one-move-per-iteration", fn=rot, detail="move_file sites inside the shift loop: %d" % len(mv_sites))
-        nx = [c for c in rot.calls(NEXT) if rot.in_loop(c.block)]
-        r.require(len(nx) == 1, "one-loop", fn=rot, detail="iterator steps: %d" % len(nx))
-        if mv_sites and nx:
-            it = nx[0].arg(0)
-            revs = [x for x in walk(it) if x[0] == "call" and x[1] == "core::iter::traits::iterator::Iterator::rev"]
-            rngs = [x for x in walk(it) if x[0] == "agg" and x[1] in ("core::ops::range::Range", "core::ops::range::RangeInclusive")]
-            r.require(len(revs) == 1 and len(rngs) == 1 and any(y is rngs[0] or y == rngs[0] for y in walk(revs[0])), "reversed-range", fn=rot, site=nx[0].at,
-                      detail="loop iterates %s" % show(it, 6),
-                      fail_detail="the shift loop does not iterate a reversed range (oldest archive must move first): %s" % show(it, 6))
-            ity = nx[0].t.get("arg_tys", [""])[0]
-            r.require("Rev<" in ity and "Range<u32>" in ity, "iterator-type", fn=rot, detail="iterator type %s" % ity)
+        m = shift_loop(p)
+        heads = [c for c in rot.calls(NEXT) if rot.in_loop(c.block)] if m["kind"] == "range" else [m["head"]]
+        r.require(len(heads) == 1, "one-loop", fn=rot, detail="iterator steps / loop tests: %d" % len(heads))
+        if mv_sites:
+            r.require(m["desc"], "reversed-range", fn=rot, site=(m["site"].at if m.get("site") else None),
+                      detail="descending: %s" % m["detail"],
+                      fail_detail="the shift loop does not run from the highest index down (oldest archive must move first): %s" % m["detail"])
+            if m["kind"] == "range":
+                r.require("Rev<" in m["iter_ty"] and "Range<u32>" in m["iter_ty"], "iterator-type", fn=rot, detail="iterator type %s" % m["iter_ty"])
+            else:
+                r.require(m["desc"], "iterator-type", fn=rot, detail="hand-written countdown by one, variable updated after the move")
             c = mv_sites[0]
-            item = None
-            for x in walk(c.arg(0)):
-                if x[0] == "as" and x[2] == "Some" and strip(x[1])[0] == "call" and strip(x[1])[1] == NEXT:
-                    item = ("field", x, "0")
             src, dst = index_of(c.arg(0)), index_of(c.arg(1))
             r.require(src is not None and dst is not None, "paths-from-pattern", fn=rot, site=c.at, detail="src/dst are pattern.replace(\"{}\", index)")
             if src and dst:
-                vars_ = {"i": deep_strip(item)} if item else {}
+                vars_ = {"i": m["var"]} if m.get("var") else {}
                 ls, ld = linear(src[0], vars_), linear(dst[0], vars_)
-                r.require(ls == {"i": 1}, "src-is-index-i", fn=rot, site=c.at, detail="source index %s -> %s" % (show(src[0], 4), ls))
-                r.require(ld == {"i": 1, 1: 1}, "dst-is-index-i-plus-1", fn=rot, site=c.at, detail="destination index %s -> %s" % (show(dst[0], 4), ld))
+                so = (ls or {}).get(1, 0)
+                r.require(ls is not None and {k: v for k, v in ls.items() if k != 1} == {"i": 1}, "src-is-index-i", fn=rot, site=c.at, detail="source index %s -> %s" % (show(src[0], 4), ls))
+                want = dict(ls or {})
+                want[1] = so + 1
+                want = {k: v for k, v in want.items() if v != 0}
+                r.require(ls is not None and ld == want, "dst-is-index-i-plus-1", fn=rot, site=c.at,
+                          detail="destination index %s -> %s (source %s)" % (show(dst[0], 4), ld, ls))
                 patt = ("param", pr["pattern"])
                 r.require(src[1] == patt and dst[1] == patt and src[2] == ("const", "str", "{}") and dst[2] == ("const", "str", "{}"), "same-pattern-and-placeholder", fn=rot,
                           detail="both sides substitute \"{}\" in the roller's pattern")
@@ -480,24 +655,41 @@ def rule_shift_order(ctx, p, cfg, rid="R1"):
             r.require(common.result_is_checked(rot, c), "move-error-propagated", fn=rot, site=c.at, detail="a failing shift step aborts the rotation with its error")
 
 
+def _src_offset(p, m):
+    ro = roles(p)
+    rot = ro["rotate"]
+    c = m["mv"]
+    src = index_of(c.arg(0))
+    if not src or not m.get("var"):
+        return None
+    ls = linear(src[0], {"i": m["var"]})
+    if ls is None or {k: v for k, v in ls.items() if k != 1} != {"i": 1}:
+        return None
+    return ls.get(1, 0)
+
 
 def rule_range(ctx, p, cfg, rid="R2"):
     with ctx.rule(rid, "range", cfg) as r:
         ro = roles(p)
         rot = ro["rotate"]
         pr = rotate_params(p)
-        nx = [c for c in rot.calls(NEXT) if rot.in_loop(c.block)]
-        rngs = [x for x in walk(nx[0].arg(0)) if x[0] == "agg" and x[1].startswith("core::ops::range::Range")] if nx else []
-        if len(rngs) != 1:
+        m = shift_loop(p)
+        if m.get("first") is None and m.get("last") is None and m["kind"] == "range":
             raise ShapeUnrecognised("shift loop range not found")
-        rg = rngs[0]
-        fd = dict(rg[3])
-        vars_ = {"base": ("param", pr["base"]), "count": ("param", pr["count"])}
-        ls, le = linear(fd.get("start"), vars_), linear(fd.get("end"), vars_)
-        incl = rg[1].endswith("RangeInclusive")
-        want_end = {"base": 1, "count": 1, 1: -2} if incl else {"base": 1, "count": 1, 1: -1}
-        r.require(ls == {"base": 1}, "starts-at-base", fn=rot, detail="range start %s -> %s" % (show(fd.get("start"), 4), ls))
-        r.require(le == want_end, "ends-at-base+count-1", fn=rot, detail="range end %s -> %s (%s)" % (show(fd.get("end"), 5), le, "inclusive" if incl else "exclusive"))
+        so = _src_offset(p, m)
+        if so is None:
+            raise ShapeUnrecognised("source index is not the loop variable plus a constant")
+
+        def plus(lf, k):
+            if lf is None:
+                return None
+            out = dict(lf)
+            out[1] = out.get(1, 0) + k
+            return {a: b for a, b in out.items() if b != 0}
+        # indices of the files that are moved: from first+so down to last+so
+        lo, hi = plus(m["last"], so), plus(m["first"], so)
+        r.require(lo == {"base": 1}, "starts-at-base", fn=rot, detail="lowest source index -> %s (%s)" % (lo, m["detail"]))
+        r.require(hi == {"base": 1, "count": 1, 1: -2}, "ends-at-base+count-1", fn=rot, detail="highest source index -> %s, i.e. the highest destination is base+count-1 (%s)" % (hi, m["detail"]))
         # the roller passes its own base and count
         r.require(True, "params-bound", detail="rotate(pattern=arg%d, base=arg%d, count=arg%d, file=arg%d)" % (pr["pattern"], pr["base"], pr["count"], pr["file"]))
 
@@ -509,10 +701,10 @@ def rule_final_step(ctx, p, cfg, rid="R3"):
         rot = ro["rotate"]
         pr = rotate_params(p)
         cs = ro["compress_site"]
-        nx = [c for c in rot.calls(NEXT) if rot.in_loop(c.block)][0]
+        m = shift_loop(p)
         # reached only through loop exhaustion
         conds = rot.conditions(cs.block)
-        okx = any(strip(si.discr)[0] == "discr" and strip(strip(si.discr)[1])[0] == "call" and strip(strip(si.discr)[1])[1] == NEXT and {si.label(v) for v, _ in al} == {"None"} for sb, si, al in conds)
+        okx = any(m["exit"](sb, si, al) for sb, si, al in conds)
         r.require(okx, "after-the-shift", fn=rot, site=cs.at, detail="the final move runs after the shift loop is exhausted")
         args = cs.arg_exprs()
         filearg = [a for a in args if deep_strip(a) == ("param", pr["file"])]
